@@ -36,7 +36,10 @@ RULE = ("histories: (i) exhaustive single operations (clear, push_back, pop_back
         "content (8 configurations); needle sets containing NUL with positions around size(); right-hand sides of another capacity (compare/relational up to 31 "
         "characters, operator+ / += with capacity 5); operator=(Char), assign(str), operator=(view), operator+=(view), (count, ch) constructor, reverse iteration. "
         "Long strings (60..capacity characters at capacities 254/255/256) through the copying/filling/rotating/scanning members; iterator-based replace with pairs "
-        "that are not a range of the string. Spec leg outside std's domain: 'contract' where the documented precondition is false, else 'na'. non-trivial = distinct case whose impl leg contains a non-empty state")
+        "that are not a range of the string. Writes into a caller's buffer (copyb, copyb2, vcopyb): copy(dest, count, pos), copy(dest, count) and "
+        "basic_string_view(s).copy on a destination of non-zero pairwise different sentinels between two guard characters, the WHOLE destination is "
+        "compared; destination length rlen, rlen+1, rlen+3, capacity+2; count in {0, 1, left-1, left, left+1, capacity, capacity+1, npos}, pos in "
+        "{0, mid, size()-1, size(), size()+1}; contents with embedded NUL / top-bit character; 13 configurations. Spec leg outside std's domain: 'contract' where the documented precondition is false, else 'na'. non-trivial = distinct case whose impl leg contains a non-empty state")
 
 TRUSTED_BASE = ["reference leg: libstdc++ 12 std::basic_string on the same histories"]
 ASSUMPTIONS = ["LP64: size_t is 64 bits", "char signed 8-bit, wchar_t signed 32-bit (x86-64 Linux)",
@@ -657,9 +660,48 @@ def gen_history(rng, ck, cap, extra=False):
     return hist(ck, cap, ops)
 
 
+def gen_copy_buf(ck, cap, out, rng, quick):
+    """the members that write into a CALLER's buffer (copy(dest, count, pos), copy(dest, count), string_view(s).copy) on
+    a destination prefilled with non-zero, pairwise different sentinels and observed as a whole (plus one guard character
+    on each side): destination exactly as long as the copy (the character behind the copied ones is the guard), one / three
+    longer, capacity + 2; count in {0, size()-pos-1, size()-pos, size()-pos+1, capacity, capacity+1, npos}, pos in
+    {0, mid, size()-1, size(), size()+1}; contents with an embedded NUL and a top-bit character (a strncpy / strcpy-like
+    copy stops or pads there)"""
+    al = ALPHA[ck]
+    base = [al[0], al[3], al[1], al[2], 99, 100, 101, 102, 103, 104, 105, 106, 107, 108, 109, 110]
+    lens = sorted(set(n for n in [0, 1, 2, 3, 6, cap - 1, cap] if 0 <= n <= cap))
+    if cap > 31:
+        lens = [0, 5, 17, cap - 1, cap]
+    for n in lens:
+        if n <= len(base):
+            l = base[:n]
+        else:
+            l = [rng.choice([97, 98, 99, 100, 0, al[2]]) if rng.random() < 0.1 else 97 + (i % 26) for i in range(n)]
+        for pos in sorted(set([0, n // 2, max(n - 1, 0), n, n + 1])):
+            left = n - pos
+            counts = sorted(set(c for c in [0, 1, left - 1, left, left + 1, cap, cap + 1, NPOS] if c >= 0))
+            if quick and cap > 31:
+                counts = sorted(set(c for c in [0, left - 1, left, left + 1, NPOS] if c >= 0))
+            for c in counts:
+                rlen = min(c, left) if left >= 0 else 0
+                for D in sorted(set([rlen, rlen + 1, rlen + 3, cap + 2])):
+                    if D < rlen or (cap > 31 and D > rlen + 3):
+                        continue
+                    off = rng.randint(0, 40)
+                    d = [35 + (off + i) % 50 for i in range(D)]
+                    out.append(f"copyb {ck} {cap} {L(l)} {L(d)} {c} {pos}")
+                    if D <= rlen + 1:
+                        out.append(f"vcopyb {ck} {cap} {L(l)} {L(d)} {c} {pos}")
+                    if pos == 0:
+                        out.append(f"copyb2 {ck} {cap} {L(l)} {L(d)} {c}")
+
+
 def gen(tier, rng):
     out = []
     quick = tier != "thorough"
+    for ck, caps in [("c", [0, 1, 3, 7, 15, 16, 255]), ("w", [3, 16]), ("u", [3, 16]), ("s", [15]), ("b", [16])]:
+        for cap in caps:
+            gen_copy_buf(ck, cap, out, rng, quick)
     gen_exhaustive("c", [0, 1, 2, 3], 3, out)
     gen_exhaustive("w", [3], 2 if quick else 3, out)
     gen_exhaustive("u", [3], 2 if quick else 3, out)
